@@ -252,16 +252,26 @@ def _work(arg):
     return res
 
 
+def deductive(ctx):
+    """engine D: TypeParser.__call__ accepts a lazy field only on a path on which check_type(obj._type) passed (or, with
+    superclass_auto_cast, the permissive reverse check passed)"""
+    from contracts import typeparser_call as TC
+    from pyvc.verify import verify, summarize
+
+    summarize(ctx, verify(ctx, TC.contract()))
+
+
 def run(ctx):
     from vf.core import json_safe
 
+    deductive(ctx)
     ctx.level = "other"
     ctx.explanation = (
         "bounded contract check relating the real static connection check TypeParser(T).check_type(S) "
         "(superclass_auto_cast off) to the real runtime coercion (TypeParser(T)(v) and the make_converter "
         "converter of a task field of type T): for every statically accepted pair every generated value of S "
         "must be accepted at run time, fixed-length tuple arity aside; plus StateArray-wrapped types/values and "
-        "a sample of accepted pairs executed end to end as a two-node workflow.  No deductive part."
+        "a sample of accepted pairs executed end to end as a two-node workflow.  Deductive part: TypeParser.__call__ accepts a lazy field only on a path on which check_type passed."
     )
     root = tempfile.mkdtemp(prefix="vf_c21_")
     old_hc = os.environ.get("PYDRA_HASH_CACHE")
